@@ -246,6 +246,25 @@ def run(work, tier, replay=None):
                    "INVARIANTS DisconnectAtMostOnce ReturnedMeansDisconnected NeverStuck\nPROPERTY HandleReturns\n" % (b, d))
             r = work.tlc("connlife-lead", "ConnLife", cfg, workers=2, timeout=600, dump=False)
             leads.append(dict(design=name, refuted=("violated" in r) or ("Deadlock" in open(r["log"]).read())))
+        # the send path (ConnSend.tla): a member that stopped reading, a peer that keeps relaying, a reset.  The repaired
+        # sender ("until") never leaves anyone stuck; the two earlier designs are refuted (their counterexample is what
+        # scenarios/l2_D19_* replays on the real server)
+        for (cs, cn) in ([(3, 8)] if tier == "quick" else [(2, 6), (3, 8), (4, 12), (6, 16)]):
+            for design in ("until", "once", "cancel"):
+                cfg = ('SPECIFICATION Spec\nCONSTANTS\n  S = %d\n  N = %d\n  Drain = "%s"\nINVARIANT TypeOK\n'
+                       'PROPERTIES HandlerReturns PeerGetsOn RemovedOnce\n' % (cs, cn, design))
+                r = work.tlc("connsend-%s" % design, "ConnSend", cfg, workers=2, timeout=600, dump=False)
+                if r.get("timeout"):
+                    raise Inconclusive("ConnSend model check timed out")
+                dead = ("Deadlock" in open(r["log"]).read()) or ("violated" in r)
+                if design == "until":
+                    if dead or "error" in r:
+                        raise Inconclusive("TLC refutes the repaired send path on ConnSend (S=%d, N=%d): %s" % (cs, cn, r.get("violated", r.get("error", "deadlock"))))
+                    mc_runs.append(dict(K="ConnSend S=%d" % cs, Q=cn, distinct=r.get("distinct", 0), generated=r.get("generated", 0), violated=None))
+                else:
+                    leads.append(dict(design="send_path_drain_%s(D19) S=%d N=%d" % (design, cs, cn), refuted=dead))
+        if not all(l["refuted"] for l in leads):
+            raise Inconclusive("a design known to be wrong is not refuted by the specification: %s" % [l["design"] for l in leads if not l["refuted"]])
         work.log("ConnLife: %s; unrepaired designs refuted: %s" % (
             [(m["K"], m["Q"], m["distinct"]) for m in mc_runs], [(l["design"], l["refuted"]) for l in leads]))
     if replay:
@@ -307,6 +326,12 @@ def run(work, tier, replay=None):
                 bad.append("handlers that never returned: %s" % r["not_returned"])
             if r["clients_gauge_delta"] or r["goroutines_delta"] > 0:
                 bad.append("gauge %+d, goroutines %+d" % (r["clients_gauge_delta"], r["goroutines_delta"]))
+            if sc.get("expect_ok"):
+                for x in r["results"]:
+                    if x.get("ok") is False:
+                        bad.append("%s of connection %s did not complete" % (x["op"], sc["ops"][x["i"]].get("c")))
+                if r["sessions_left"]:
+                    bad.append("sessions left behind: %d" % r["sessions_left"])
         else:
             bad = judge(sc, r)
         if bad:
